@@ -37,6 +37,14 @@ pub fn scenarios() -> Vec<Scenario> {
             EXH_TOTAL,
             EXH_TOTAL,
         ),
+        Scenario::new(
+            "C27",
+            "exhaustive-medium",
+            "thorough tier only: every content length 7..=9, every chunking, every operation sequence of length <= 3 over the same alphabet (enumerated)",
+            run_exhaustive_medium,
+            0,
+            EXH_MEDIUM_TOTAL,
+        ),
     ]
 }
 
@@ -324,13 +332,25 @@ impl std::io::Read for PlanReader {
     }
 }
 
+const EXH_MEDIUM_CHUNKINGS: u64 = 64 + 128 + 256;
+pub const EXH_MEDIUM_TOTAL: u64 = EXH_MEDIUM_CHUNKINGS * EXH_SEQS;
+
 fn run_exhaustive() -> Outcome {
     // the case number is the only decision of the run; the driver hands out run indices in order,
     // and `exh_case` maps the i-th run to the i-th case through this draw's value in replay.
     let case = crate::exh_index(EXH_TOTAL);
+    exhaustive_case(case, 0)
+}
+
+fn run_exhaustive_medium() -> Outcome {
+    let case = crate::exh_index(EXH_MEDIUM_TOTAL);
+    exhaustive_case(case, 7)
+}
+
+fn exhaustive_case(case: u64, first_len: usize) -> Outcome {
     let (mut c, seq_idx) = (case / EXH_SEQS, case % EXH_SEQS);
     // decode length and composition
-    let mut len = 0usize;
+    let mut len = first_len;
     loop {
         let comps = if len == 0 { 1 } else { 1u64 << (len - 1) };
         if c < comps {
